@@ -360,6 +360,17 @@ fn run_group(ev: &mut Ev, id: usize, g: &Group) -> Value {
                 };
                 let z2 = ev.eval_text(&format!("{}{}", prefix, s));
                 run["z2"] = enc_outcome(&z2);
+                // z3 = the printed form of z (what the REPL shows, what write emits) read back as program text
+                if radix == 10 {
+                    let printed = catch_unwind(AssertUnwindSafe(|| format!("{:#}", Cell::Number(nums[0].clone()))));
+                    match printed {
+                        Ok(p) => {
+                            run["printed"] = json!(p);
+                            run["z3"] = enc_outcome(&ev.eval_text(&p));
+                        }
+                        Err(_) => run["z3"] = json!({"k":"panic"}),
+                    }
+                }
             } else {
                 run["z1"] = json!({"k":"none"});
                 run["z2"] = json!({"k":"none"});
